@@ -71,6 +71,10 @@ THEOREMS = [
     "SynKit.ReprOpt.molToGraphOpt_drop",
     "SynKit.ReprOpt.itsToGmlX_false",
     "SynKit.ReprOpt.itsToGmlX_roundtrip_partial",
+    "SynKit.ReprOpt.itsToGmlX_roundtrip_reindex",
+    "SynKit.ReprOpt.itsToGmlX_roundtrip",
+    "SynKit.ReprOpt.itsToGmlX_roundtrip_reindex_iff",
+    "SynKit.ReprOpt.freshAbove_of_ids_pos",
 ]
 
 NODE_KEYS = ["element", "aromatic", "hcount", "charge", "neighbors", "atom_map"]
@@ -1708,6 +1712,8 @@ def load_regress():
 
 def run_case(ctx, B, c):
     k = c["kind"]
+    if k == "f44":
+        return f44_probe(ctx)
     if k == "smiles":
         g = check_smiles(ctx, B, c["smiles"], "replay")
         if g is not None:
@@ -1745,6 +1751,43 @@ def its_from_json(j):
     G = graphio.to_nx(j)
     # lists inside typesGH came back as tuples, which is what the code accepts as well
     return G
+
+
+F44_CLASS = "explicit_h_reindex_id_collision"
+
+
+def f44_probe(ctx):
+    """Finding F44 (theorem `itsToGmlX_roundtrip_reindex_iff`: with explicit_hydrogen=True and reindex=True the round trip holds
+    exactly when every fresh hydrogen id lies above the number of atoms).  Two fixed inputs: a C-O bond-forming ITS with one
+    hydrogen on each atom, atom ids (0, 1) [the fresh hydrogen ids 2, 3 collide with the renumbered atoms 1, 2] and the same with
+    ids (1, 2) [control, must round-trip].  The demand is C10's own: the heavy atoms and the bond between them survive
+    ITS -> GML -> ITS."""
+    import networkx as nx
+    from synkit.IO.chem_converter import its_to_gml, gml_to_its
+
+    def mk(a, b):
+        I = nx.Graph()
+        I.add_node(a, element="C", charge=0, hcount=1, aromatic=False, atom_map=a, typesGH=(("C", False, 1, 0, []), ("C", False, 1, 0, [])))
+        I.add_node(b, element="O", charge=0, hcount=1, aromatic=False, atom_map=b, typesGH=(("O", False, 1, 0, []), ("O", False, 1, 0, [])))
+        I.add_edge(a, b, order=(0.0, 1.0), standard_order=-1.0)
+        return I
+
+    for ids in ((0, 1), (1, 2)):
+        ctx.count("f44_probe")
+        ctx.case(["f44", list(ids)], True)
+        try:
+            J = gml_to_its(its_to_gml(mk(*ids), core=False, reindex=True, explicit_hydrogen=True))
+            heavy = sorted(d.get("element") for _, d in J.nodes(data=True) if d.get("element") != "H")
+            bonds = sorted(tuple(float(x) for x in d.get("order")) for u, v, d in J.edges(data=True)
+                           if J.nodes[u].get("element") != "H" and J.nodes[v].get("element") != "H")
+            ok = heavy == ["C", "O"] and bonds == [(0.0, 1.0)]
+            got = {"heavy_atoms": heavy, "heavy_bonds": bonds}
+        except Exception as e:  # noqa: BLE001
+            ok, got = False, {"raised": repr(e)[:200]}
+        if not ok:
+            ctx.violation("ITS -> GML (reindex=True, explicit_hydrogen=True) -> ITS does not keep the atoms and the changed bond",
+                          {"kind": "f44", "ids": list(ids)}, dict(got, stream="f44-probe"),
+                          classes=[F44_CLASS] if ids == (0, 1) else [])
 
 
 def run(ctx):
@@ -2074,6 +2117,7 @@ def run(ctx):
             break
     B.run()
     phase("d2")
+    f44_probe(ctx)
     ctx.obligation("correspondence (a): smiles_to_graph / graph_to_mol = model; canonical SMILES unchanged", VS["a"] == 0)
     ctx.obligation("correspondence (b): hydrogen conversions = model; total H, restoration under the guard, molecule unchanged", VS["b"] == 0)
     ctx.obligation("correspondence (c): labels, GML writer/reader = model; ITS -> GML -> ITS keeps atoms, charges, order pairs", VS["c"] == 0)
